@@ -48,6 +48,9 @@ CHECKS = {
  "C17": ("model_checking", "TLC model checking of the Printer spec with HookKind constant (dispatch order in handleMethods) over the hook slice + replay with a recording hook installed in-process",
    "TLC checks on every case that the hook is invoked exactly for the error operands the statement names (and never under Unsafe); the real hook records (error identity, verb) and the log must equal both the model's and the statement's.",
    "DESIGN.md 6/C17", "hook functions are the four fixed ones of Printer!HookScript"),
+ "C16": ("model_checking", "TLC model checking of the four routes (direct, builder, Sprintfn, SafeFormat) on the Printer/builder spec + the 8 real routes run on the same operands with recording writers",
+   "The specification's builder layer (PreRedactable write of a finished text) and nested-printer layer (borrowed buffer, restored mode) are checked equal up to envelope merging on every case; the real routes are compared among themselves, and the Fprint writer protocol (single Write, n and err passed through) is checked with ok/failing/short writers.",
+   "DESIGN.md 6/C16", "none beyond the harness"),
 }
 
 NOT_YET = {
